@@ -6,6 +6,8 @@ func init() {
 		gCommitBound(c)
 		gCommitLeader(c)
 		gMatchAck(c)
+		c06Follower(c)
+		gQuorumJoint(c)
 	}})
 	register(&PropertyRule{ID: "C02", Explain: "structural necessary conditions of C02 (election safety): see DESIGN.md §5 C02", Run: func(c *Check) {
 		gVote(c)
@@ -30,6 +32,13 @@ func init() {
 		gCommitMono(c)
 		gVote(c)
 		c07HardState(c)
+	}})
+	register(&PropertyRule{ID: "C09", Explain: "structural necessary conditions of C09 (snapshot install): see DESIGN.md §5 C09", Run: func(c *Check) {
+		c09Snapshot(c)
+		gTrunc(c)
+		gCommitMono(c)
+		c06Follower(c)
+		c05Extras(c)
 	}})
 	register(&PropertyRule{ID: "C03", Explain: "structural necessary conditions of C03 (log matching): see DESIGN.md §5 C03", Run: func(c *Check) {
 		gTrunc(c)
